@@ -8,9 +8,10 @@ SetToSeq(S) == CHOOSE s \in [1..Cardinality(S) -> S] : \A i, j \in 1..Cardinalit
 \* (a zero-argument definition would be evaluated once by TLC: the random draws take the step number)
 Init == /\ cfg \in Configs
         /\ hist = <<[op |-> "Config", reg |-> SetToSeq(cfg.reg), native |-> SetToSeq(cfg.native)]>> /\ done = FALSE
-RandClient(n) == [op |-> "Client", kind |-> RE({"node", "node", "nodeAfter", "nodeBefore", "base", "base", "fetch", "rogue"}), extras |-> RE(ExtrasLists)]
+RandClient(n) == [op |-> "Client", kind |-> RE({"node", "node", "nodeAfter", "nodeBefore", "base", "base", "fetch", "rogue"}), extras |-> RE(ExtrasLists), st |-> RE({"none", "none", "big"})]
+RandOp(n) == IF cfg.reg # {} /\ RE(1..5) = 1 THEN [op |-> "Lookup", name |-> RE(cfg.reg)] ELSE RandClient(n)
 Step == /\ Len(hist) < Depth
-        /\ hist' = Append(hist, IF Len(hist) = Depth - 1 THEN [op |-> "CloseBase"] ELSE RandClient(Len(hist)))
+        /\ hist' = Append(hist, IF Len(hist) = Depth - 1 THEN [op |-> "CloseBase"] ELSE RandOp(Len(hist)))
         /\ UNCHANGED cfg /\ done' = FALSE
 Emit == Len(hist) = Depth /\ ~done /\ PrintT(<<"BEH", ToJson(hist)>>) /\ done' = TRUE /\ UNCHANGED <<cfg, hist>>
 Next == Step \/ Emit
